@@ -130,8 +130,10 @@ def flow_part(pid, tier, seed, wd, prefixes):
         e = trace[v["line"] - 1]
         v["run"], v["op"], v["args"], v["observed"] = e.get("run"), e["op"], e["args"], e["out"]
     cov = collections.Counter((e["op"], e["out"].get("class")) for e in trace)
+    if not any(e["op"] == "OPCallback" and e["out"].get("channel") == "form" for e in trace):
+        raise Inconclusive("vacuous flow run: no form_post response")
     for need in (("RPCallback", "tokens"), ("RPCallback", "unauthorized"), ("Userinfo", "claims"), ("Userinfo", "error"), ("Refresh", "tokens"), ("Revoke", "ok"),
-                 ("EndSession", "redirect"), ("Introspect", "active"), ("DevicePoll", "tokens"), ("DevicePoll", "pending")):
+                 ("EndSession", "redirect"), ("Introspect", "active"), ("DevicePoll", "tokens"), ("DevicePoll", "pending"), ("TokenExchange", "tokens")):
         if not cov[need]:
             raise Inconclusive(f"vacuous flow run: no event {need}; have {sorted(cov.items(), key=str)}")
     new, known = report(pid, viols, lambda v: f"{v['rule']}:{v['op']}:{v['args'].get('rp', '')}",
